@@ -561,16 +561,14 @@ def get_true_interval_masks(boolean_vector):
     if not boolean_vector.dtype == bool:
         raise ValueError("non-boolean input vector")
     int_vector = boolean_vector.astype(np.int64)
-    is_start = np.concatenate(([0], int_vector[1:] - int_vector[:-1])) > 0
+    is_start = np.concatenate((int_vector[:1], int_vector[1:] - int_vector[:-1])) > 0
     # Indices increment for each block of True values in input vector
     indices = np.cumsum(is_start.astype(np.int64))
     indices[~boolean_vector] = 0
     assert (
         indices.astype(bool) == boolean_vector
     ).all(), "Non-zero indices correspond to True elements of input vector"
-    unique_indices = sorted(set(indices))
-    assert unique_indices[0] == 0
-    del unique_indices[0]
+    unique_indices = sorted(set(indices) - {0})
     return (indices == index for index in unique_indices)
 
 
